@@ -40,6 +40,11 @@ func signalScenarios() []binScenario {
 			SQL: "CREATE TABLE `f2.csv` (n);\nINSERT INTO `f2.csv` VALUES (0);\nALTER TABLE `f1.csv` SET ENCODING TO SJIS;\nINSERT INTO `f1.csv` VALUES ('\ud55c');\nCOMMIT;\n"},
 		{Name: "commitfailauto", Tables: map[string]string{"f1.csv": rowsCSV(3, 0)},
 			SQL: "ALTER TABLE `f1.csv` SET ENCODING TO SJIS;\nINSERT INTO `f1.csv` VALUES ('\ud55c');\nCREATE TABLE `f2.csv` (n);\nINSERT INTO `f2.csv` VALUES (0);\n"},
+		// the preload file has changed / created a table when the command line turns out to be unusable
+		{Name: "preloadusage", Tables: map[string]string{"f1.csv": rowsCSV(3, 0)}, Preload: "INSERT INTO `repo/f1.csv` VALUES (0);\n",
+			Args: []string{"--import-format", "nosuch"}, SQL: "SELECT 1;\n"},
+		{Name: "preloadcreate", Tables: map[string]string{"f1.csv": rowsCSV(3, 0)}, Preload: "CREATE TABLE `repo/f2.csv` (n);\nINSERT INTO `repo/f2.csv` VALUES (0);\n",
+			Args: []string{"--write-encoding", "nosuch"}, SQL: "SELECT 1;\n"},
 		{Name: "holder", Tables: map[string]string{"f1.csv": rowsCSV(3, 0)}, Holder: true,
 			SQL: "SELECT COUNT(*) FROM `f1.csv`;\n"},
 		{Name: "holderupd", Tables: map[string]string{"f1.csv": rowsCSV(3, 0), "f2.csv": rowsCSV(3, 0)}, Holder: true,
